@@ -237,8 +237,13 @@ def _http_date(ts):
     return email.utils.formatdate(ts, usegmt=True)
 
 
-ETAG_FORMS = {"absent": None, "any": "*", "match": f'"{ETAG}"', "weak-match": f'W/"{ETAG}"', "other": '"deadbeef-1"',
-              "list-with-match": f'"x", "{ETAG}"'}
+def _etag_forms(etag):
+    """etag: the quoted entity-tag the implementation itself announced for the file"""
+    return {"absent": None, "any": "*", "match": etag, "weak-match": "W/" + etag, "other": '"deadbeef-1"',
+            "list-with-match": '"x", ' + etag}
+
+
+ETAG_FORM_NAMES = ["absent", "any", "list-with-match", "match", "other", "weak-match"]
 DATE_FORMS = {"absent": None, "earlier": _http_date(MTIME - 10), "equal": _http_date(MTIME), "later": _http_date(MTIME + 10),
               "garbage": "yesterday"}
 
@@ -294,8 +299,17 @@ def conditional(ctx, method="GET"):
     web_response.StreamResponse.prepare = fake_prepare
     web_fileresponse.FileResponse._sendfile = fake_sendfile
     web_fileresponse.FileResponse._get_file_path_stat_encoding = lambda self, ae: (_P(), _S(), None)
-    im = ctx.pick("if_match", sorted(ETAG_FORMS))
-    inm = ctx.pick("if_none_match", sorted(ETAG_FORMS))
+    # learn the entity-tag from an unconditional response (its format is the implementation's business)
+    probe = web.FileResponse(pathlib.Path("/nonexistent/f.bin"))
+    probe._path = _P()
+    _run(probe.prepare(make_mocked_request("GET", "/f.bin")))
+    etag = probe.headers.get("ETag")
+    if not etag or not etag.startswith('"'):
+        return False, "inv:cond", {"key": "no-strong-etag-on-plain-response", "etag": etag}
+    rec.clear()
+    ETAG_FORMS = _etag_forms(etag)
+    im = ctx.pick("if_match", ETAG_FORM_NAMES)
+    inm = ctx.pick("if_none_match", ETAG_FORM_NAMES)
     ius = ctx.pick("if_unmodified_since", sorted(DATE_FORMS))
     ims = ctx.pick("if_modified_since", sorted(DATE_FORMS))
     rng = ctx.pick("range", ["absent", "bytes=2-5"])
@@ -304,7 +318,7 @@ def conditional(ctx, method="GET"):
     for name, val in (("If-Match", ETAG_FORMS[im]), ("If-None-Match", ETAG_FORMS[inm]),
                       ("If-Unmodified-Since", DATE_FORMS[ius]), ("If-Modified-Since", DATE_FORMS[ims]),
                       ("Range", None if rng == "absent" else rng),
-                      ("If-Range", DATE_FORMS.get(ifr) if ifr in DATE_FORMS else (f'"{ETAG}"' if ifr == "etag-match" else '"deadbeef-1"'))):
+                      ("If-Range", DATE_FORMS.get(ifr) if ifr in DATE_FORMS else (etag if ifr == "etag-match" else '"deadbeef-1"'))):
         if val is not None:
             h[name] = val
     req = make_mocked_request(method, "/f.bin", headers=h)
@@ -358,9 +372,9 @@ def conditional(ctx, method="GET"):
     if status == 412:
         ok = got["via"] == "prepare"
     elif status == 304:
-        ok = got["via"] == "prepare" and got["etag"] == f'"{ETAG}"' and got["content_range"] is None
+        ok = got["via"] == "prepare" and got["etag"] == etag and got["content_range"] is None
     elif status == 200:
-        ok = got["content_length"] == str(SIZE) and got["content_range"] is None and got["etag"] == f'"{ETAG}"' and \
+        ok = got["content_length"] == str(SIZE) and got["content_range"] is None and got["etag"] == etag and \
             (got["via"] == "prepare" if bodyless else (got["via"] == "sendfile" and (got["offset"], got["count"]) == (0, SIZE)))
     else:
         ok = got["content_length"] == "4" and got["content_range"] == f"bytes 2-5/{SIZE}" and \
